@@ -212,62 +212,40 @@ def r6(ctx):
     a provenance rule: the dictionary the parser writes to is never the shared default itself."""
     from .c07 import r_roundtrip
     r_roundtrip(ctx, rule="R6")
-    # the gff3 key test: the pattern(s) the parser consults behave like 'one or more word characters followed by ='
-    # on a corpus that separates the neighbouring patterns (empty key, blank before '=', non-word characters)
+    # the gff3 key test, observed on what inference records: the key/value separator is '=' exactly when the first field
+    # starts with one or more word characters followed by '=' (a corpus that separates the neighbouring patterns)
     import re as _re
-    sk0 = require_func(ctx, "parser._split_keyvals")
-    from ..util import closure as _closure
-    used = set()
-    for g in _closure(ctx, sk0):
-        for x in ast.walk(g.node):
-            if isinstance(x, ast.Name) and isinstance(x.ctx, ast.Load):
-                used.add(x.id)
-    pm = ctx.proj.module("parser")
-    pats = {}
-    for n_ in pm.tree.body:
-        if isinstance(n_, ast.Assign) and isinstance(n_.value, ast.Call) and norm(n_.value.func) in ("re.compile", "compile") and n_.value.args and \
-                isinstance(n_.targets[0], ast.Name) and n_.targets[0].id in used and const_str(n_.value.args[0]) is not None:
-            pats[n_.targets[0].id] = const_str(n_.value.args[0])
-    ctx.floor("R6", len(pats), 1, "compiled patterns consulted by the attribute parser")
-    corpus = ["a=", "=", "a", " a=", "a =", "ab=c", "_=", "1=", "-=", "a-b=", "", "a==", "ID=x;Parent=y", "gene_id \"x\"", "=x", "a.b=c", "ä=1", "a\t=1", "a=b=c"]
-    ref = _re.compile(r"\w+=")
-    for name_, pat_ in sorted(pats.items()):
-        try:
-            cp = _re.compile(pat_)
-        except _re.error as e:
-            ctx.ob("R6", False, "the key pattern compiles", node=pm.toplevel.get(name_), sig="pattern %r: %s" % (pat_, e))
-            continue
-        diff = [s_ for s_ in corpus if (cp.match(s_) is None) != (ref.match(s_) is None)]
-        ctx.ob("R6", not diff, "the gff3 test is 'one or more word characters followed by =' at the start of the first field", node=pm.toplevel.get(name_),
-               sig="key pattern %r agrees with \\w+= on the separating corpus" % pat_ if not diff else "key pattern %r differs from \\w+= on %r" % (pat_, diff[:3]))
-    from ..flow import Flow
-    from ..util import closure
+    import copy as _copy
+    from .. import printer
+    from ..absint import Unsupported
+    from .c07 import regex_patterns
     sk = require_func(ctx, "parser._split_keyvals")
-    pool = closure(ctx, sk)
-    fl = Flow(ctx, pool, rows=False)
-    SHARED = ("global", "constants.dialect")
-    bad = []
+    pat = dict(regex_patterns(ctx, "parser"))
+    corpus = ["a=", "=", "a", " a=", "a =", "ab=c", "_=", "1=", "-=", "a-b=", "a==", "gene_id \"x\"", "=x", "a.b=c", "\u00e4=1", "a\t=1", "a=b=c", "ID=x", "Parent =y", "k v"]
+    ref = _re.compile(r"\w+=")
+    diff = []
+    shared = {k: (_copy.deepcopy(v)) for k, v in ctx.folder.const("constants", "dialect").items()}
+    before = _copy.deepcopy(shared)
     n = 0
-    for g in pool:
-        for x in ast.walk(g.node):
-            tgt = None
-            if isinstance(x, ast.Assign):
-                for t in x.targets:
-                    if isinstance(t, ast.Subscript):
-                        tgt = t.value
-            elif isinstance(x, ast.Call) and isinstance(x.func, ast.Attribute) and x.func.attr in ("update", "setdefault", "pop", "clear", "append", "extend"):
-                tgt = x.func.value
-                if isinstance(tgt, ast.Subscript):
-                    tgt = tgt.value
-            if tgt is None:
-                continue
-            ts = fl.terms(tgt, g)
-            if any(t == SHARED or (t[0] == "item" and t[1] == SHARED) for t in ts):
-                bad.append(x)
+    for text in corpus:
+        try:
+            traces = printer.parse_run(ctx, sk, text, None, pat, shared_default=shared)
+        except Unsupported as e:
+            ctx.require(False, "attribute parser outside the analysable subset on %r: %s" % (text, e))
+        for t in traces:
             n += 1
-    ctx.ob("R6", not bad, "inference starts from a copy of the default dialect (never mutates the shared default)", func=sk, node=(bad[0] if bad else None),
-           sig="the parser writes only to its own copy of the dialect" if not bad else "the parser writes into constants.dialect itself (line %d)" % bad[0].lineno)
-    ctx.floor("R6", n, 3, "stores into dictionaries in the attribute parser")
+            if t.result[0] != "return" or not (isinstance(t.result[1], tuple) and len(t.result[1]) == 2 and isinstance(t.result[1][1], dict)):
+                diff.append((text, "no dialect: %s" % (t.result[:2],)))
+                continue
+            got = t.result[1][1].get("keyval separator") == "="
+            if got != (ref.match(text) is not None):
+                diff.append((text, "keyval separator %r" % t.result[1][1].get("keyval separator")))
+    ctx.floor("R6", n, 15, "inference runs on the key-pattern corpus")
+    ctx.ob("R6", not diff, "the gff3 test is 'one or more word characters followed by =' at the start of the first field (observed on the inferred key/value separator)", func=sk,
+           sig="inference agrees with \\w+= on the separating corpus" if not diff else "inference differs from \\w+= on %r" % (diff[:3],))
+    ctx.ob("R6", shared == before, "inference starts from a copy of the default dialect (never mutates the shared default)", func=sk,
+           sig="the parser writes only to its own copy of the dialect" if shared == before else
+           "the parser writes into constants.dialect itself: %s" % sorted(k for k in before if shared.get(k) != before[k]))
 
 
 def r_window(ctx):
